@@ -236,6 +236,13 @@ func (a *sideEffectActor) InboxForwarding(c context.Context, inboxIRI *url.URL, 
 	col := make(map[string]itemser)
 	oCol := make(map[string]orderedItemser)
 	for _, iri := range myIRIs {
+		// A collection addressed more than once is loaded only once: its
+		// lock is still held from the first time.
+		if _, ok := col[iri.String()]; ok {
+			continue
+		} else if _, ok := oCol[iri.String()]; ok {
+			continue
+		}
 		err = a.db.Lock(c, iri)
 		if err != nil {
 			return err
